@@ -461,6 +461,17 @@ func (s *Sess) viewSeq(m *Mem, v *View) string {
 	if v.IsStr {
 		return v.StrTerm
 	}
+	if off, ok1 := isConstTerm(v.Off); ok1 {
+		if ln, ok2 := isConstTerm(v.Len); ok2 && off.IsInt64() && ln.IsInt64() && ln.Int64() <= 128 && ln.Int64() >= 0 {
+			// constant window: a ground chain of the elements (two such sequences with equal elements are
+			// equal terms - no extensionality or quantifier needed)
+			arr := "((as const (Array Int " + es + ")) " + s.zero(v.Elem) + ")"
+			for k := int64(0); k < ln.Int64(); k++ {
+				arr = fmt.Sprintf("(store %s %d %s)", arr, k, s.load(m, s.viewElemAddr(v, fmt.Sprint(k))))
+			}
+			return s.mkSeq(es, v.Len, arr)
+		}
+	}
 	base := s.load(m, v.Origin)
 	var arr string
 	if v.IsArray {
